@@ -144,7 +144,7 @@ non-canonical transaction encodings), mirrors the reference, or needs a store th
 Round 10 went back to the eight properties of round 8 in the last three hours. The C04 agent delivered nothing - every
 candidate it built was caught by the existing suite, and it said which test caught which - and three agents delivered
 one mutation instead of two for the same reason: after nine rounds the space of small changes that break a property
-*and* survive the repository's own tests is visibly thinner for these properties. Four of the fifteen deliveries met an
+*and* survive the repository's own tests is visibly thinner for these properties. Three of the eleven deliveries met an
 existing rule (one of them re-introduced the defect of finding 108, an hour after its repair). One is still missed and
 is of the kind section 7 declares out of reach (counter arithmetic).
 
